@@ -276,6 +276,16 @@ def rule_r3(repo, run):
                       am.loc(node), sample=dict(parent=pc, attr=attr))
 
 
+def _kw_key(test):
+    """`"name" in <mapping>` -> (name, mapping text)"""
+    if isinstance(test, ast.Compare) and len(test.ops) == 1 and isinstance(test.ops[0], ast.In) \
+            and isinstance(test.left, ast.Constant) and isinstance(test.left.value, str):
+        m = pyflow.dotted(test.comparators[0])
+        if m:
+            return (test.left.value, m)
+    return None
+
+
 def rule_r4(repo, run):
     R = run.rule("C14.R4", "attrs/fattrs from YAML are merged into the mapping the parser's attribute() fills")
     am = repo.module("ast")
@@ -299,6 +309,37 @@ def rule_r4(repo, run):
               "YAML `attrs:` must be merged with arg.attrs.update(...)", am.loc(f), sample=dict(merges=recvs))
     run.check(R, "ast.FunctionNode.__init__:fattrs", "ast.attrs" in recvs,
               "YAML `fattrs:` must be merged with ast.attrs.update(...)", am.loc(f))
+    # every documented YAML key is honoured independently of the presence of another key
+    nk = 0
+    for qual, fn in sorted(am.functions().items()):
+        for node in ast.walk(fn):
+            if not isinstance(node, ast.If):
+                continue
+            key = _kw_key(node.test)
+            if key is None:
+                continue
+            nk += 1
+            # is this `if` the else-arm (elif) of a test of a different key of the same mapping?
+            par = getattr(node, "_parent", None)
+            outer = None
+            last = node
+            while len(last.orelse) == 1 and isinstance(last.orelse[0], ast.If):
+                last = last.orelse[0]
+            if last.orelse:
+                # a chain that ends in a default arm dispatches on the *kind* of the entry
+                # (`block` / `decl` / else: error): the keys are alternatives by design
+                run.check(R, "ast.%s:key[%s]" % (qual, key[0]), True, "", sample=dict(function=qual, key=key[0], dispatch=True))
+                continue
+            while isinstance(par, ast.If) and node in par.orelse:
+                k2 = _kw_key(par.test)
+                if k2 is not None and k2[1] == key[1] and k2[0] != key[0]:
+                    outer = k2
+                node, par = par, getattr(par, "_parent", None)
+            run.check(R, "ast.%s:key[%s]" % (qual, key[0]), outer is None,
+                      "YAML key %r is only looked at when key %r is absent (elif): stating both must have the "
+                      "effect of each" % (key[0], outer[0] if outer else ""), am.loc(fn),
+                      sample=dict(function=qual, key=key[0]))
+    run.floor(R, "tests of optional YAML keys in ast.py", nk, 12)
     # keyed by argument name
     run.check(R, "ast.FunctionNode.__init__:attrs-by-name", "attrs[name]" in src and "arg.name" in src,
               "YAML attrs must be looked up by the argument's name", am.loc(f))
